@@ -133,10 +133,35 @@ package file
 //@   trusted
 //@   effect $Complete := err == nil
 
+// The validators accept a file only when its size is exactly the size a complete file has.
+//@ pure func statSize(i fs.FileInfo) int
+//@ extern (io/fs.FileInfo).Size
+//@   params i
+//@   ensures result == statSize(i)
+
 //@ func ValidateODSSize
 //@   property C07
-//@   trusted
 //@   effect $Complete := err == nil
+//@   checks err == nil ==> statSize(info) == expectedSize && expectedSize == ods.hdr.OffsetWithRoots() + shares*shareSize
+
+//@ func (*headerV0).OffsetWithRoots
+//@   property C07
+//@   pure
+//@ func (*headerV0).RootsSize
+//@   property C07
+//@   pure
+//@ func (*headerV0).Size
+//@   property C07
+//@   pure
+
+//@ func validateQ4Size
+//@   property C07
+//@   noframe
+//@   requires !$FdOpen
+//@   ensures !$FdOpen
+//@   checks err == nil ==> statSize(info) == expectedSize && expectedSize == shareSize * odsSize * odsSize
+//@ extern os.Open
+//@   effect $FdOpen := err == nil
 
 // The files grow only by appending writes and are closed on every path. $FdOpen: the created file
 // is open; $AllWritten: the content writer returned nil; $Flushed: the buffer was flushed without error
